@@ -44,7 +44,6 @@ fn panic_violation(rec: &OpRecord, w: &World, phase: &str) -> Option<Violation> 
 impl Monitor for Mon {
     fn after_op(&mut self, w: &mut World, rec: &OpRecord, stats: &mut RunStats) -> Option<Violation> {
         stats.nontrivial = true;
-        #[cfg(feature = "hooks")]
         if !rec.result.is_panic() {
             if let Some(s) = w.dut.snapshot() {
                 stats.states.push(s.config_hash());
